@@ -118,3 +118,38 @@ Example C13_concrete :
   Qeq_bool (count ang 0 1 A B) 9 = true /\
   Qeq_bool (norm_count ang 0 1 (map (scale 4) A) B) (norm_count ang 0 1 A B) = true.
 Proof. vm_compute. split; reflexivity. Qed.
+
+(* ---------------- the weight scale and results that went through a file ---------------- *)
+(* the stored form of a count table keeps the patch pairs with a count that is not zero, whatever its magnitude:
+   reading back gives the table that was written, so it commutes with a weight factor and the normalised counts
+   computed after CorrFunc.to_file / from_file do not depend on the factor *)
+Theorem C13_stored_counts_read_back : forall T, Forall2 (Forall2 Qeq) (roundtrip any_nonzero T) T.
+Proof. exact roundtrip_id. Qed.
+Print Assumptions C13_stored_counts_read_back.
+
+Theorem C13_stored_counts_weight_scale : forall k row,
+  Forall2 Qeq (roundtrip_row any_nonzero (scale_row k row)) (scale_row k (roundtrip_row any_nonzero row)).
+Proof. exact roundtrip_row_scale. Qed.
+Print Assumptions C13_stored_counts_weight_scale.
+
+Theorem C13_stored_norm_weight_scale : forall k n row, ~ k == 0 -> ~ n == 0 ->
+  Forall2 Qeq (map (fun x => x / (k * n)) (roundtrip_row any_nonzero (scale_row k row)))
+              (map (fun x => x / n) (roundtrip_row any_nonzero row)).
+Proof. exact roundtrip_row_norm_scale. Qed.
+Print Assumptions C13_stored_norm_weight_scale.
+
+(* a selection with any absolute threshold breaks this for some positive factor *)
+Theorem C13_stored_threshold_refuted : forall eps, 0 < eps ->
+  exists row k, 0 < k /\
+    ~ Forall2 Qeq (roundtrip_row (any_above eps) (scale_row k row)) (scale_row k (roundtrip_row (any_above eps) row)).
+Proof. exact roundtrip_threshold_refuted. Qed.
+Print Assumptions C13_stored_threshold_refuted.
+
+Example C13_stored_concrete :
+  let row := [1 # 4; 0; 3] in let k := 1 # 1099511627776 in let eps := 1 # 100000000 in
+  any_nonzero (scale_row k row) = true /\
+  qlist_eqb (roundtrip_row any_nonzero (scale_row k row)) (scale_row k row) = true /\
+  qlist_eqb (roundtrip_row (any_above eps) row) row = true /\
+  qlist_eqb (roundtrip_row (any_above eps) (scale_row k row)) [0; 0; 0] = true /\
+  c13_store_case [row; [0; 0; 0]] [row; [0; 0; 0]] = 0%nat /\ c13_store_case [scale_row k row] [[0; 0; 0]] = 1%nat.
+Proof. vm_compute. repeat split; reflexivity. Qed.
